@@ -153,6 +153,43 @@ Theorem KnownDimsRespected_leaf_refuted :
     length c1 = 1%nat /\ c2 = [].
 Proof. exact known_dims_ratio_witness. Qed.
 
+(* ---- the tables regenerated from src/util/math.rs, src/util/resolve.rs, src/style/available_space.rs and
+   src/geometry.rs on every run mean what the box model needs, for every number type: clamp = max (min v hi) lo with
+   absent bounds ignored; lengths resolve to themselves, percentages only against a definite basis (else None / 0),
+   auto to None / 0; min-/max-content pass through arithmetic; the aspect ratio transfers a size definite on exactly
+   one axis (height = width / ratio, width = height * ratio) *)
+Theorem C19_tables : forall (T : Type) (N : Num T) (v p b w h r : T) (lo hi : option T) (a : AvailableSpace T) (f : T -> T)
+                            (s : Size (option T)),
+  (maybe_clamp_fo v lo hi = sp_clamp v lo hi /\
+   maybe_clamp_oo (Some v) lo hi = Some (sp_clamp v lo hi) /\ maybe_clamp_oo None lo hi = None) /\
+  (maybe_max_fo v (Some p) = fmax v p /\ maybe_max_fo v None = v /\
+   maybe_max_of (Some v) p = Some (fmax v p) /\ maybe_max_of None p = None /\
+   maybe_add_of (Some v) p = Some (add v p) /\ maybe_add_of None p = None /\
+   maybe_sub_of (Some v) p = Some (sub v p) /\ maybe_sub_of None p = None /\
+   maybe_sub_af (Definite v) p = Definite (sub v p) /\
+   maybe_sub_af MinContent p = MinContent /\ maybe_sub_af MaxContent p = MaxContent) /\
+  (maybe_resolve_dim Auto (Some b) = None /\ maybe_resolve_dim (Length v) None = Some v /\
+   maybe_resolve_dim (Length v) (Some b) = Some v /\
+   maybe_resolve_dim (Percent v) (Some b) = Some (mul b v) /\ maybe_resolve_dim (Percent v) None = None /\
+   resolve_or_zero_lp (LpLength v) None = v /\ resolve_or_zero_lp (LpPercent v) (Some b) = mul b v /\
+   resolve_or_zero_lp (LpPercent v) None = zero /\
+   resolve_or_zero_lpa Auto (Some b) = zero /\ resolve_or_zero_lpa (Length v) None = v /\
+   resolve_or_zero_lpa (Percent v) (Some b) = mul b v /\ resolve_or_zero_lpa (Percent v) None = zero) /\
+  (avail_into_option (Definite v) = Some v /\ avail_into_option (@MinContent T) = None /\
+   avail_into_option (@MaxContent T) = None /\
+   avail_maybe_set a (Some w) = Definite w /\ avail_maybe_set a None = a /\
+   avail_map_definite_value (Definite v) f = Definite (f v) /\
+   avail_map_definite_value MinContent f = MinContent /\ avail_map_definite_value MaxContent f = MaxContent) /\
+  (maybe_apply_aspect_ratio (mkSize (Some w) None) (Some r) = mkSize (Some w) (Some (div w r)) /\
+   maybe_apply_aspect_ratio (mkSize None (Some h)) (Some r) = mkSize (Some (mul h r)) (Some h) /\
+   maybe_apply_aspect_ratio (mkSize (Some w) (Some h)) (Some r) = mkSize (Some w) (Some h) /\
+   maybe_apply_aspect_ratio (mkSize None None) (Some r) = mkSize None None /\
+   maybe_apply_aspect_ratio s None = s).
+Proof.
+  intros. split; [apply tables_clamp|]. split; [apply tables_arith|]. split; [apply tables_resolve|].
+  split; [apply tables_avail | apply tables_ratio].
+Qed.
+
 (* ---- non-vacuity: a block root with content-box sizing, percentage padding, a scrollbar gutter, a percentage
    min-height and margins satisfies every premise of C19_spec_partial, and its layout is 170x62 with a 136 wide
    content box handed to the measure function *)
@@ -181,3 +218,4 @@ Print Assumptions C19_display_none.
 Print Assumptions KnownDimsRespected_leaf.
 Print Assumptions KnownDimsRespected_leaf_content_size.
 Print Assumptions KnownDimsRespected_leaf_refuted.
+Print Assumptions C19_tables.
